@@ -75,6 +75,16 @@ def cases(tier, seed, ctx=None):
                 continue
             meta = [1, r["method"], r["raw"], r["path"], [[k, v] for k, v in r["query"]], [[k, v] for k, v in r["sent"]], r["cl"]]
             yield ("sock", [G.NOPOL, [G.Construct, G.Feed(stream)], G.env_for(ver, tab, [r["raw"]]), meta], "sock-two-blank-lines-in-one-read")
+    # a well-formed head of more than 64 KiB (many header lines) arriving in one piece, and in two (family sockbig: family sock
+    # judged by the statement alone - the extracted model is far too slow on heads of this size)
+    biglines = [(b"X-L%d" % i, b"v" * 48) for i in range(1150)]
+    bighead = b"GET /big HTTP/1.1\r\nHost: h" + b"".join(b"\r\n" + n + b": " + v for n, v in biglines)
+    vb, tb = G.oracle(ctx, [b"/big"])
+    metab = [1, 2, b"/big", b"/big", [], [[b"Host", b"h"]] + [[n, v] for n, v in biglines], -1]
+    for segs in ([bighead + b"\r\n\r\n"], [bighead[:66000], bighead[66000:] + b"\r\n\r\n"]):
+        for pre in (0, 1):
+            ops = ([G.Feed(x) for x in segs] + [G.Construct, G.Turn]) if pre else ([G.Construct] + [G.Feed(x) for x in segs])
+            yield ("sockbig", [G.NOPOL, ops, G.env_for(vb, tb, [b"/big"]), metab], "sock-head-over-64KiB")
     # declared lengths at and beyond the 32-bit limits (no body is sent: only what the application is told counts)
     for big in (2**31 - 1, 2**31, 2**31 + 1, 2**32 - 1, 2**32, 5 * 2**30, 2**53, 2**63 - 1):
         for nm in (b"Content-Length", b"content-length"):
